@@ -391,6 +391,9 @@ type BasicConstraints struct {
 	Raw      string               `json:"raw"`
 	Critical bool                 `json:"critical"`
 	Content  *BasicConstraintsObj `json:"content"`
+	//true, if the content names a pathLen explicitly (so that zero can be told
+	//from absent). the schema keeps this out of config files; it is set by markPathLen
+	HasPathLen bool `json:"hasPathLen"`
 }
 
 func (b BasicConstraints) Oid() asn1.ObjectIdentifier {
@@ -401,6 +404,12 @@ func (b BasicConstraints) Builder() (cert.ExtensionBuilder, error) {
 	builder, err := commonExtensionHandler(b)
 	if builder != nil || err != nil {
 		return builder, err
+	}
+
+	if b.HasPathLen {
+		return config.ConstantBuilder{
+			Extension: cert.NewBasicConstraintsWithPathLen(b.Critical, b.Content.Ca, b.Content.PathLen),
+		}, nil
 	}
 
 	return config.ConstantBuilder{
